@@ -67,3 +67,28 @@ def run(exe, args=(), timeout=600, env=None):
         return p.returncode, p.stdout, p.stderr
     except subprocess.TimeoutExpired as ex:
         return -999, (ex.stdout or b'').decode() if isinstance(ex.stdout, bytes) else (ex.stdout or ''), 'TIMEOUT after %ds' % timeout
+
+
+def build_custom_db(name, gen_root, tag, opt='-O1'):
+    """Build harness <name>.cpp against the library WITHOUT the shipped zonedb/zonedbx sources, with the generated tables under
+    <gen_root>/ace_time/{zonedb,zonedbx}/ taking their place (headers found first on the include path)."""
+    d = os.path.join(build.scratch(), 'libgen_' + tag)
+    os.makedirs(d, exist_ok=True)
+    flags = ['clang++'] + [f for f in build.CXXFLAGS if not f.startswith('-I')] + ['-I' + build.STUBS, '-I' + gen_root, '-I' + os.path.join(build.REPO, 'src')]
+    srcs = lib_sources(with_db=False) + [os.path.join(build.STUBS, 'stubs.cpp')]
+    for ns in ('zonedb', 'zonedbx'):
+        srcs += sorted(glob.glob(os.path.join(gen_root, 'ace_time', ns, '*.cpp')))
+    procs, objs = [], []
+    for s_ in srcs:
+        o = os.path.join(d, os.path.basename(os.path.dirname(s_)) + '_' + os.path.basename(s_) + '.o')
+        procs.append((subprocess.Popen(flags + [opt, '-c', s_, '-o', o], stdout=subprocess.PIPE, stderr=subprocess.PIPE, text=True), s_))
+        objs.append(o)
+    for p_, s_ in procs:
+        out, err = p_.communicate()
+        if p_.returncode:
+            raise RuntimeError('compile of %s failed:\n%s' % (s_, err[-3000:]))
+    exe = os.path.join(d, name)
+    r = subprocess.run(flags + [opt, '-fno-access-control', os.path.join(HERE, name + '.cpp')] + objs + ['-o', exe], capture_output=True, text=True)
+    if r.returncode:
+        raise RuntimeError('harness %s (generated tables) failed to build:\n%s' % (name, r.stderr[-4000:]))
+    return exe
